@@ -193,16 +193,12 @@ func (w *responseWriter) writeZip(
 	// OK to use os.Stat instead of os.Lstat here.
 	fileInfo, err := os.Stat(outDirPath)
 	if err != nil {
-		if os.IsNotExist(err) {
-			if createOutDirIfNotExists {
-				if err := os.MkdirAll(outDirPath, 0755); err != nil {
-					return err
-				}
-			} else {
-				return err
-			}
+		if !os.IsNotExist(err) || !createOutDirIfNotExists {
+			return err
 		}
-		return err
+		if err := os.MkdirAll(outDirPath, 0755); err != nil {
+			return err
+		}
 	} else if !fileInfo.IsDir() {
 		return fmt.Errorf("not a directory: %s", outDirPath)
 	}
